@@ -287,9 +287,13 @@ class Model:
         for sp in specs:
             if sp not in self.installed:
                 continue
-            for ss in self.idx[sp].local_synsets():
-                if ss.get('ili') == ili:
-                    out.append(K(sp, ss['id']))
+            by = self.idx[sp].__dict__.get('_by_ili')
+            if by is None:
+                by = {}
+                for ss in self.idx[sp].local_synsets():
+                    by.setdefault(ss.get('ili'), []).append(K(sp, ss['id']))
+                self.idx[sp]._by_ili = by
+            out.extend(by.get(ili, []))
         return out
 
     def ili_of(self, key):
@@ -306,12 +310,12 @@ class Model:
         if ili is None or not E:
             return []
         out = []
+        eix = self._index(E)
         for y in self.synsets_with_ili(ili, E):
             if y == key:
                 continue
-            for k, s_, t, typ, d, meta in self._declared(E):
-                if k != 'ss' or s_ != y or t.split('|', 1)[0] not in E:
-                    continue
+            for r in eix.get(('ss', y), []):
+                typ, t, d, meta = r['name'], r['target'], r['lexicon'], r['meta']
                 if types and typ not in types:
                     continue
                 tili = self.ili_of(t)
@@ -527,13 +531,26 @@ class Model:
                             yield ('s_ss', ix.key_sense(s['id']), ix.key_synset(r['target']),
                                    r['relType'], d, meta_of(r))
 
+    def _index(self, scope):
+        """{(kind, source key): [relation, ...]} of everything declared by *scope*, memoised
+        per (scope, installed set)."""
+        key = (tuple(scope), tuple(self.installed))
+        memo = self.__dict__.setdefault('_memo', {})
+        if key not in memo:
+            if len(memo) > 64:
+                memo.clear()
+            ix = {}
+            sc = set(scope)
+            for k, s, t, typ, d, meta in self._declared(scope):
+                if t.split('|', 1)[0] in sc:
+                    ix.setdefault((k, s), []).append(
+                        {'name': typ, 'source': s.split('|', 1)[1], 'target': t,
+                         'lexicon': d, 'meta': meta})
+            memo[key] = ix
+        return memo[key]
+
     def _rels(self, kind, src, scope):
-        out = []
-        for k, s, t, typ, d, meta in self._declared(scope):
-            if k == kind and s == src and t.split('|', 1)[0] in scope:
-                out.append({'name': typ, 'source': src.split('|', 1)[1],
-                            'target': t, 'lexicon': d, 'meta': meta})
-        return out
+        return [dict(r) for r in self._index(scope).get((kind, src), [])]
 
     def sense_relations(self, key, scope):
         # exact duplicates collapse (the statement promises the declared relations, not
